@@ -10,11 +10,11 @@ import (
 
 func init() {
 	register(&propInfo{
-		ID: "C16",
+		ID:          "C16",
 		Explanation: "Origin and site analysis of reverse calls: (R16.1) the reverse-client builder allocates, inside each invocation, the client object, its request queue and the proxy struct; the queue it makes is what it stores into the connection it was given, the client's exit signal is that connection's exit signal, the proxy it provides is the one placed (under the proxy type's key) into the context it returns, which derives from the context it was given; (R16.2) the builder is invoked only on the WebSocket upgrade path, once per connection, before the connection loop starts, and its context is what the loop runs under; (R16.3) a reverse call fails instead of blocking once the connection is gone: every enqueue watches the exit signal, every loop exit raises it and fails in-flight calls; (R16.4) the client-side handler for reverse calls takes its alias table from the client configuration; (R16.5) handlers run on their own goroutine, so a handler that makes a reverse call (whose response arrives as a later frame on the same connection) cannot deadlock the frame executor.",
-		NotDecided: "Affinity under real client populations (follows from per-invocation allocation, not explored), correlation/error/dispatch guarantees of reverse calls (the same client and dispatcher code as forward calls: C02, C09, C11, C12 apply).",
+		NotDecided:  "Affinity under real client populations (follows from per-invocation allocation, not explored), correlation/error/dispatch guarantees of reverse calls (the same client and dispatcher code as forward calls: C02, C09, C11, C12 apply).",
 		Assumptions: []string{"the reverse-client builder is the function literal stored into the server configuration's builder field (type func(context.Context, *conn) (context.Context, error))"},
-		Run: runC16,
+		Run:         runC16,
 	})
 }
 
@@ -111,12 +111,12 @@ func runC16(c *Ctx) {
 			}
 			// exit signal binding
 			bound := false
-			for _, u := range usesOfKind(p.uses(r.FCExiting), "store") {
-				if !inB[u.Fn] {
+			for _, sv := range c.liftedFieldWrites(r.FCExiting) {
+				if !inB[sv.At.Parent()] || sv.Base == nil {
 					continue
 				}
-				if u.Base == ssa.Value(clAlloc) || isCl(u.Base) {
-					if base, ok := loadsField(stripConv(u.Val), r.FExiting); ok && c.isParamOrForwarded(base, connP) {
+				if sv.Base == ssa.Value(clAlloc) || isCl(sv.Base) {
+					if base, ok := loadsField(stripConv(sv.Val), r.FExiting); ok && c.isParamOrForwarded(base, connP) {
 						bound = true
 					}
 				}
@@ -204,7 +204,7 @@ func runC16(c *Ctx) {
 				fn := u.Fn
 				construct := fmt.Sprintf("%s: invocation of the reverse-client builder", fname(fn))
 				upgrades := false
-				allInstrs(fn, func(in ssa.Instruction) {
+				p.coneInstrs(outermost(fn), func(in ssa.Instruction) {
 					if ci, ok := in.(*ssa.Call); ok && calleeName(ci) == "(*"+gorilla+".Upgrader).Upgrade" {
 						upgrades = true
 					}
@@ -221,13 +221,10 @@ func runC16(c *Ctx) {
 				// its connection argument is the freshly built connection object, and the loop runs afterwards with the returned context
 				call := u.At.(*ssa.Call)
 				connArg := call.Common().Args[1]
-				var clv []ssa.Value
-				leaves(connArg, map[ssa.Value]bool{}, &clv)
-				fresh := len(clv) == 1
-				if fresh {
-					al, ok := clv[0].(*ssa.Alloc)
-					fresh = ok && al.Parent() == fn
-				}
+				fresh := c.allOrigins(connArg, func(a apath) bool {
+					al, ok := a.Root.(*ssa.Alloc)
+					return ok && len(a.Fields) == 0 && al.Heap && p.inCone(fn, al)
+				})
 				if !fresh {
 					okAll = false
 					c.bad("R16.2", construct, c.ipos(call), "the builder is not given the connection object created for this upgrade")
